@@ -96,6 +96,9 @@ def run_scalars(ctx):
     rng = ctx.rng
     ndraw = ctx.pick(25, 200)
     intervals = [[1, 5], [5, 1], [-3, -1], [-1, -3], [2, 2], [0, 1e-9], [-1e6, 1e6], [0.5, 0.75], [-2.5, 4], [0, 0]]
+    # one-point intervals: the only member is the point itself, exactly (no rounding tolerance applies to a single point)
+    intervals += [[x, x] for x in (3.14, 2.718281828, -1.3, 0.1, 1e-7, 123456.789, 1 / 3.)]
+    intervals += [[x, x] for x in (round(rng.uniform(-10, 10), rng.randint(1, 9)) for _ in range(ctx.pick(6, 40)))]
     for i, iv in enumerate(intervals):
         for form in ('list', 'kwargs'):
             s = RealInterval(iv) if form == 'list' else RealInterval(start=iv[0], stop=iv[1])
@@ -105,8 +108,12 @@ def run_scalars(ctx):
                 if v is None:
                     break
                 p = scalar_member('RealInterval', iv, v)
+                if p is None and iv[0] == iv[1]:
+                    ctx.count('degenerate_interval_draws')
+                    if v != iv[0]:
+                        p = 'the one-point interval [%r, %r] gave %r' % (iv[0], iv[1], v)
                 if p:
-                    ctx.violation('C12:RealInterval:' + ('reversed' if iv[0] > iv[1] else 'range'), p, {'config': iv})
+                    ctx.violation('C12:RealInterval:' + ('degenerate' if iv[0] == iv[1] else 'reversed' if iv[0] > iv[1] else 'range'), p, {'config': iv})
                 ctx.nontrivial(['RealInterval', iv, form, d, ctx.shard])
     int_ranges = [[1, 5], [5, 1], [-2, 2], [0, 1], [3, 3], [-4, -2], [-2, -4], [0, 6], [10, 12]]
     for iv in int_ranges:
@@ -131,7 +138,8 @@ def run_scalars(ctx):
                               'endpoint %d of %r not drawn in %d draws (values seen: %r)' % (end, iv, n, sorted(seen)),
                               {'config': iv})
         ctx.nontrivial(['IntegerRange', iv, ctx.shard])
-    rects = [([1, 3], [1, 3]), ([3, 1], [-2, -1]), ([0, 0], [0, 1]), ([-5, 5], [2, 2]), ([-1, 0], [4, 1])]
+    rects = [([1, 3], [1, 3]), ([3, 1], [-2, -1]), ([0, 0], [0, 1]), ([-5, 5], [2, 2]), ([-1, 0], [4, 1]),
+             ([3.14, 3.14], [-1.3, -1.3]), ([2.718281828, 2.718281828], [0, 1]), ([0, 1], [-1.3, -1.3])]
     for re_, im_ in rects:
         s = ComplexRectangle(re=re_, im=im_)
         for d in range(ndraw):
@@ -140,6 +148,8 @@ def run_scalars(ctx):
             if v is None:
                 break
             p = scalar_member('ComplexRectangle', (re_, im_), v)
+            if p is None and ((re_[0] == re_[1] and complex(v).real != re_[0]) or (im_[0] == im_[1] and complex(v).imag != im_[0])):
+                p = '%r is off the degenerate side of the rectangle re=%r im=%r' % (v, re_, im_)
             if p:
                 ctx.violation('C12:ComplexRectangle', p, {'re': re_, 'im': im_})
             ctx.nontrivial(['ComplexRectangle', re_, im_, d, ctx.shard])
